@@ -74,7 +74,29 @@ impl Dimensionality {
         for (_, power) in self.dims.iter_mut() {
             *power = power.checked_mul(exp)?;
         }
-        Some(self)
+        Some(self).filter(Dimensionality::powers_in_range)
+    }
+
+    /// The product of two units, None if a power doesn't fit.
+    pub fn checked_mul(&self, rhs: &Dimensionality) -> Option<Dimensionality> {
+        for (unit, power) in self.dims.iter() {
+            if let Some(other) = rhs.dims.get(unit) {
+                power.checked_add(*other)?;
+            }
+        }
+        Some(self * rhs)
+    }
+
+    /// The largest power that a calculation may give to a unit. It
+    /// leaves room for the sums, differences and negations of powers
+    /// that happen while converting and showing the result.
+    pub const MAX_POWER: i64 = 1 << 61;
+
+    /// Whether every power is within `MAX_POWER`.
+    pub fn powers_in_range(&self) -> bool {
+        self.dims
+            .values()
+            .all(|power| power.unsigned_abs() <= Self::MAX_POWER as u64)
     }
 }
 
